@@ -136,7 +136,7 @@ def run(tier, seed, replay):
     shapes = ["%%", "a%%b", "%lit%", "x%lit%y", "%n%", "%n%%n%", "%b%", " %b%", "%nil%", "%nil%!", "%f%", "%u%", "%s%", "%s%%s%", "%%%s%%%", "%env(\"GV_SET\")%", "%env(\"GV_NOPE\")%",
               "%env(\"GV_NOPE\", \"d\")%", "%envInt(\"GV_INT\")%", "%envInt(\"GV_INT\")%0", "%envInt(\"GV_BAD\")%", "%envInt(\"GV_NOPE\", 7)%", "%env(\"GV_EMPTY\")%", "%env(\"GV_EMPTY\", \"dflt\")%", "%envInt(\"GV_EMPTY\", 7)%", "%envInt(\"GV_EMPTY\")%", "x%env(\"GV_EMPTY\", \"dflt\")%y", "%envInt(\"GV_BAD\", 7)%", "%envInt(\"GV_Z\")%", "v=%envInt(\"GV_Z\")%", "%envInt(\"GV_NEG0\")%", "%envInt(\"GV_PLUS\")%", "%envInt(\"GV_BIG\")%", "%envInt(\"GV_MIN\")%", "%env(\"GV_Z\")%", "%todo()%", "%todo(\"msg\")%",
               "@x", "@", "!value 1", "!value al.X", "!tagged t", "$gontainer", "@x%%", "!value %n%", "@%lit%",
-              "%fn(\"x\", 3)%", "%fn(\"fail\")%", "pre %fn(\"fail\")% post", "é%s%✓", "%lit% %n% %b% %nil% %f% %u%", "100%%", "%%%%", "%env(\"GV_SET\")%/%env(\"GV_SET\")%"]
+              "%fn(\"x\", 3)%", "%fn(\"x,y\", 3)%", "%fn(\"a ,b\",4)%", "%fn(\"a,,b\")%", "%fn(\"fail\")%", "pre %fn(\"fail\")% post", "é%s%✓", "%lit% %n% %b% %nil% %f% %u%", "100%%", "%%%%", "%env(\"GV_SET\")%/%env(\"GV_SET\")%"]
     base = {"meta": {"imports": {"al": "gv.test/fix/alpha"}, "functions": {"fn": "al.Fn"}},
             "parameters": {"lit": "text", "n": 42, "b": True, "nil": None, "f": 1.5, "u": cfggen.Raw("18446744073709551615"), "s": "é\"q\"\\"}}
     rcfg = json.loads(json.dumps({k: v for k, v in base.items() if k != "parameters"}))
